@@ -16,14 +16,41 @@
 (*     data             [lo, hi, integer] range of the image values         *)
 (*     sharding         [given, mb, sb, pb, enc]                            *)
 (*     obs              Seq([src, ok, size, channels, dtype, res, T, t,     *)
-(*                           bottom, nonrat, shard : [present, rec]])       *)
+(*                           bottom, nonrat, shard : [present, rec],        *)
+(*                           req : [given, mb, sb, pb, enc]])               *)
+(*   Every observation carries the sharding request of the generation that  *)
+(*   produced it (req).  src "api2" and "store" are further generations     *)
+(*   from the SAME loaded image object as "api" (other sharding choice;     *)
+(*   store_nibabel_image_to_fullres_info into a fresh directory): the       *)
+(*   property speaks of "the info generated from a volume file", so every   *)
+(*   generation is judged against the file's affine, not only the first.    *)
+(*   The affine (A, a) is what nibabel reports as img.affine for the file   *)
+(*   (the sform); it may disagree with the header's pixdim.                 *)
+(* kind "rerun": --generate-info run twice on ONE destination directory,    *)
+(*   first with volume first.vol into an empty directory, then with a       *)
+(*   different volume second.vol;  pre = what the destination held before   *)
+(*   the second run: "pair" (both files of the first run),                  *)
+(*   "transform_only" / "info_only" (the other file removed).               *)
+(*     first, second    [vol : [layout, shape, A, a, K, data], req, run,    *)
+(*                       obs : the pair found in the directory afterwards]  *)
+(*   Reading (the statement is silent on reruns; the weaker one is taken):  *)
+(*   - a run that REPORTS SUCCESS (no exception, exit status 0 or 4 = "data *)
+(*     type to be reviewed") leaves info_fullres.json + transform.json that *)
+(*     describe the volume it was given     oracle:RerunDescribesVolume     *)
+(*   - a run that refuses (exception or another exit status) on a           *)
+(*     destination that held a consistent pair leaves a consistent pair:    *)
+(*     one that describes the earlier OR the new volume (not necessarily    *)
+(*     untouched)                            oracle:RerunRefusalKeepsPair   *)
+(*   - a refusing run on a destination that held only one of the two files  *)
+(*     is not judged.                                                       *)
 (* kind "compact": a 4x4 matrix M formatted by the real                     *)
 (*   transform.matrix_as_compact_urlsafe_json and parsed back with a JSON   *)
 (*   parser after undoing the '_' for ',' substitution; entries as          *)
 (*   float.hex() strings (sign of zero dropped).                            *)
 (* Clauses: oracle:InfoRaised, oracle:Size, oracle:Channels,                *)
 (*   oracle:DataType, oracle:Sharding, oracle:NotRational,                  *)
-(*   oracle:Resolution, oracle:Placement, oracle:CompactRoundTrip.          *)
+(*   oracle:Resolution, oracle:Placement, oracle:CompactRoundTrip,          *)
+(*   oracle:RerunDescribesVolume, oracle:RerunRefusalKeepsPair.             *)
 EXTENDS Integers, Sequences, Json, IOUtils, TLC
 
 F == INSTANCE Affine WITH HalfShift <- "minus", CfgSpace <- {}, cfg <- 0
@@ -40,35 +67,77 @@ FirstBad(seq) ==
 
 Chk(b, name) == IF b THEN "ok" ELSE name
 
-ShardOk(c, o) ==
-  IF c.sharding.given
+\* req = the sharding request given to the generation that produced o
+ShardOk(req, o) ==
+  IF req.given
   THEN o.shard.present /\
-       o.shard.rec = F!ShardingRecord(c.sharding.mb, c.sharding.sb, c.sharding.pb, c.sharding.enc)
+       o.shard.rec = F!ShardingRecord(req.mb, req.sb, req.pb, req.enc)
   ELSE ~o.shard.present
 
 IsUnitRow(b) == b = <<<<0, 1>>, <<0, 1>>, <<0, 1>>, <<1, 1>>>>
 
+\* Entries of the transform that are out of reach (listed by name in o.huget:
+\* translation >= Reach case units, o.hugeT / o.hugebottom: matrix entries >=
+\* 1024; their values are replaced by 0).  The bottom row must be (0,0,0,1).
+\* When every extent is >= 2 the identity determines T (entries <= 1) and t
+\* (below Reach): an out-of-reach entry breaks it.  With a one-voxel-thick axis
+\* only t + T.res/2 is determined: an out-of-reach t breaks the identity at
+\* voxel 0 when every entry of T is below 4 (see Affine!WithinReach);
+\* anything else cannot be decided in 32-bit integers (machinery, exit 2).
+HugePlacement(o, size) ==
+  IF o.hugebottom # << >> THEN "oracle:Placement"
+  ELSE IF F!Thick(size) THEN "oracle:Placement"
+  ELSE IF o.hugeT = << >> /\ F!SmallT(o.T) THEN "oracle:Placement"
+  ELSE "machinery:OutOfReach"
+
 \* evaluated lazily, in the order a reader of the info meets them
-ObsClause(c, o) ==
+\* c = the volume [layout, shape, data, A, a, K] the observation must describe
+ObsClauseReq(c, o, req) ==
   IF ~o.ok THEN "oracle:InfoRaised"
   ELSE IF o.size # F!ExpectedSize(c.shape) THEN "oracle:Size"
   ELSE IF o.channels # F!ExpectedChannels(c.layout, c.shape) THEN "oracle:Channels"
   ELSE IF ~F!CanHold(o.dtype, c.data) THEN "oracle:DataType"
-  ELSE IF ~ShardOk(c, o) THEN "oracle:Sharding"
+  ELSE IF ~ShardOk(req, o) THEN "oracle:Sharding"
   ELSE IF o.nonrat # << >> THEN "oracle:NotRational"
-  ELSE IF ~F!ResIsNorm(o.res, c.A, c.K) THEN "oracle:Resolution"
+  ELSE IF ~F!WithinReach(c.A, c.a, c.K) THEN "machinery:OutOfReach"
+  ELSE IF o.hugeres # << >> \/ ~F!ResIsNorm(o.res, c.A, c.K) THEN "oracle:Resolution"
+  ELSE IF o.huget # << >> \/ o.hugeT # << >> \/ o.hugebottom # << >>
+       THEN HugePlacement(o, F!ExpectedSize(c.shape))
   ELSE IF ~(IsUnitRow(o.bottom)
             /\ F!Placement(o.T, o.t, o.res, c.A, c.a, c.K, F!ExpectedSize(c.shape)))
        THEN "oracle:Placement"
   ELSE "ok"
 
+ObsClause(c, o) == ObsClauseReq(c, o, o.req)
+
 InfoClause(c) ==
   FirstBad(<<Chk(c.run.outcome = "ok", "oracle:InfoRaised")>>
            \o [k \in 1..Len(c.obs) |-> ObsClause(c, c.obs[k])])
 
+\* ---- two generations into one destination directory -------------------------
+Succeeded(run) == run.outcome = "ok" /\ run.exit \in {0, 4}
+
+RerunClause(c) ==
+  LET f == c.first
+      g == c.second
+      c1 == ObsClauseReq(f.vol, f.obs, f.req)
+      g1 == ObsClauseReq(f.vol, g.obs, f.req)      \* the pair after run 2 against volume 1
+      g2 == ObsClauseReq(g.vol, g.obs, g.req)      \* ... against volume 2
+      Mach(x) == x = "machinery:OutOfReach"
+  IN IF f.run.outcome # "ok" THEN "oracle:InfoRaised"     \* into an empty directory: as kind "info"
+     ELSE IF c1 # "ok" THEN c1
+     ELSE IF Succeeded(g.run)
+          THEN (IF Mach(g2) THEN g2 ELSE Chk(g2 = "ok", "oracle:RerunDescribesVolume"))
+     ELSE IF c.pre = "pair"
+          THEN (IF g1 # "ok" /\ g2 # "ok" /\ (Mach(g1) \/ Mach(g2)) THEN "machinery:OutOfReach"
+                ELSE Chk(g1 = "ok" \/ g2 = "ok", "oracle:RerunRefusalKeepsPair"))
+     ELSE "ok"
+
 CompactClause(c) == Chk(F!CompactRoundTrip(c.M, c.parsed), "oracle:CompactRoundTrip")
 
-Clause(c) == IF c.kind = "info" THEN InfoClause(c) ELSE CompactClause(c)
+Clause(c) == IF c.kind = "info" THEN InfoClause(c)
+             ELSE IF c.kind = "rerun" THEN RerunClause(c)
+             ELSE CompactClause(c)
 
 Init == tid \in 1..Len(Cases)
 Next == UNCHANGED tid
